@@ -186,9 +186,15 @@ func makeFaultProgram(c *vf.Ctx, seed int64, cfg *pgen.Config, vdr string, tweak
 		}
 		cs, err := vrun.NewCase(c.BuildDir, dir, p, tw)
 		if err != nil {
+			if os.Getenv("VERIF_DEBUG") != "" {
+				fmt.Fprintln(os.Stderr, "makeFaultProgram: NewCase:", err)
+			}
 			continue
 		}
 		r := cs.Run(vrun.RunOpts{Args: mrpArgs(vdr), Seed: s, Timeout: 120 * time.Second})
+		if os.Getenv("VERIF_DEBUG") != "" {
+			fmt.Fprintf(os.Stderr, "makeFaultProgram: template %d seed %d exit %d timedout %v: %s\n", template, s, r.Exit, r.TimedOut, tail(r.Output, 600))
+		}
 		if r.TimedOut || r.Exit != 0 {
 			cs.KillAll()
 			os.RemoveAll(dir)
@@ -516,6 +522,11 @@ func init() {
 			if pi%3 == 2 {
 				tmpl = 1 + (pi/3)%pgen.NTemplates
 			}
+			if pi%3 == 0 && pi > 0 {
+				// a file-passing skeleton: the top-level pipeline returns files,
+				// so post-processing has something to move
+				tmpl = 1 + pgen.NTemplates + (pi/3-1)%pgen.NFileTemplates
+			}
 			big := pi%2 == 1
 			if ps := replay.Case.ProgramSeed; ps != 0 {
 				if d := ps - (c.Seed*7 + int64(pi)*104729); d < 0 || d%7919 != 0 || d/7919 >= 30 {
@@ -528,11 +539,14 @@ func init() {
 						s.ChunkChoices = []int{0, 1, 2, 9, 10, 11}
 						s.MaxLen = 4
 					}
+					if tmpl > pgen.NTemplates && len(s.LenChoices) == 0 {
+						s.LenChoices = []int{2, 3} // file skeletons: several forks each
+					}
 					if pi%4 == 1 {
 						// decimal-width boundary: every split defines exactly 10 chunks
 						s.Rules = append(s.Rules, pgen.Rule{Phase: "split", Chunks: 11})
 					}
-				}, 6, tmpl)
+				}, map[bool]int{false: 6, true: 3}[tmpl > pgen.NTemplates], tmpl)
 			if fp == nil {
 				c.Inconclusive("no baseline program")
 				continue
